@@ -131,13 +131,33 @@ def setAt : Pat → Nat → Option (List Pred)
 
 /-! ### leading literal strings (left-to-right, case-sensitive) -/
 
+/-- membership in a class that mentions no named class does not depend on the oracle tables -/
+def pureMem : Cls → Option (Nat → Bool)
+  | .base neg rs ns => if ns.isEmpty then some (fun r => inRanges rs r != neg) else none
+  | .diff a b =>
+    match pureMem a, pureMem b with
+    | some f, some g => some (fun r => f r && !g r)
+    | _, _ => none
+
+/-- a list containing every rune of the class, when it is a positive list of at most `maxCount` runes
+    (minus a subtracted class, exactly when that one is pure, else not at all: still a superset) -/
+def clsChars (maxCount : Nat) : Cls → Option (List Nat)
+  | .base neg rs ns =>
+    if neg = false ∧ ns.isEmpty = true ∧ (rs.map (fun p => p.2 + 1 - p.1)).sum ≤ maxCount then
+      some (rs.flatMap (fun p => List.range' p.1 (p.2 + 1 - p.1)))
+    else none
+  | .diff a b =>
+    match clsChars maxCount a with
+    | some cs =>
+      match pureMem b with
+      | some g => some (cs.filter (fun r => !g r))
+      | none => some cs
+    | none => none
+
 /-- the runes of a positive case-sensitive leaf, when there are at most `maxCount` of them -/
 def setChars (maxCount : Nat) : Pred → Option (List Nat)
   | .one c false => some [c]
-  | .set (.base false rs []) false =>
-    if (rs.map (fun p => p.2 + 1 - p.1)).sum ≤ maxCount then
-      some (rs.flatMap (fun p => List.range' p.1 (p.2 + 1 - p.1)))
-    else none
+  | .set c false => clsChars maxCount c
   | _ => none
 
 /-- every string of `A` continued by every string of `B` -/
